@@ -575,3 +575,194 @@ pub fn edit_decode(record: &[u8]) -> Result<EditDump, String> {
             .collect(),
     })
 }
+
+/// The write-batch and manifest-record codecs behind a line protocol (differential testing against
+/// the Lean model of the two formats).
+pub mod codec {
+    use std::convert::TryFrom;
+
+    use crate::batch::Batch;
+    use crate::key::{InternalKey, Operation};
+    use crate::versioning::VersionChangeManifest;
+
+    fn hex(b: &[u8]) -> String {
+        if b.is_empty() {
+            return "-".to_string();
+        }
+        b.iter().map(|x| format!("{:02x}", x)).collect()
+    }
+
+    fn unhex(s: &str) -> Vec<u8> {
+        if s == "-" {
+            return vec![];
+        }
+        (0..s.len() / 2)
+            .map(|i| u8::from_str_radix(&s[2 * i..2 * i + 2], 16).unwrap())
+            .collect()
+    }
+
+    fn ikey_out(k: &InternalKey) -> String {
+        format!(
+            "{}/{}/{}",
+            hex(k.get_user_key()),
+            k.get_sequence_number(),
+            if k.get_operation() == Operation::Put { "p" } else { "d" }
+        )
+    }
+
+    fn ikey_in(s: &str) -> InternalKey {
+        let p: Vec<&str> = s.split('/').collect();
+        InternalKey::new(
+            unhex(p[0]),
+            p[1].parse().unwrap(),
+            if p[2] == "p" { Operation::Put } else { Operation::Delete },
+        )
+    }
+
+    fn opt_out(o: Option<u64>) -> String {
+        match o {
+            Some(n) => n.to_string(),
+            None => "-".to_string(),
+        }
+    }
+
+    fn opt_in(s: &str) -> Option<u64> {
+        if s == "-" {
+            None
+        } else {
+            Some(s.parse().unwrap())
+        }
+    }
+
+    fn list(v: Vec<String>) -> String {
+        if v.is_empty() {
+            "-".to_string()
+        } else {
+            v.join(",")
+        }
+    }
+
+    fn edit_out(m: &VersionChangeManifest) -> String {
+        let ptrs: Vec<String> = m
+            .compaction_pointers
+            .iter()
+            .map(|(l, k)| format!("{}:{}", l, ikey_out(k)))
+            .collect();
+        let mut dels: Vec<(usize, u64)> = m.deleted_files.iter().map(|d| (d.level, d.file_number)).collect();
+        dels.sort();
+        let dels: Vec<String> = dels.iter().map(|(l, n)| format!("{}:{}", l, n)).collect();
+        let files: Vec<String> = m
+            .new_files
+            .iter()
+            .map(|(l, f)| {
+                format!(
+                    "{}:{}:{}:{}:{}",
+                    l,
+                    f.file_number(),
+                    f.get_file_size(),
+                    ikey_out(f.smallest_key()),
+                    ikey_out(f.largest_key())
+                )
+            })
+            .collect();
+        format!(
+            "wal={} prevwal={} seq={} next={} ptr={} del={} new={}",
+            opt_out(m.wal_file_number),
+            opt_out(m.prev_wal_file_number),
+            opt_out(m.prev_sequence_number),
+            opt_out(m.curr_file_number),
+            list(ptrs),
+            list(dels),
+            list(files)
+        )
+    }
+
+    fn val<'a>(tok: &'a str, key: &str) -> &'a str {
+        assert!(tok.starts_with(key));
+        &tok[key.len()..]
+    }
+
+    fn edit_in(toks: &[&str]) -> VersionChangeManifest {
+        let mut m = VersionChangeManifest::default();
+        m.wal_file_number = opt_in(val(toks[0], "wal="));
+        m.prev_wal_file_number = opt_in(val(toks[1], "prevwal="));
+        m.prev_sequence_number = opt_in(val(toks[2], "seq="));
+        m.curr_file_number = opt_in(val(toks[3], "next="));
+        let p = val(toks[4], "ptr=");
+        if p != "-" {
+            for x in p.split(',') {
+                let q: Vec<&str> = x.split(':').collect();
+                m.add_compaction_pointer(q[0].parse().unwrap(), ikey_in(q[1]));
+            }
+        }
+        let p = val(toks[5], "del=");
+        if p != "-" {
+            for x in p.split(',') {
+                let q: Vec<&str> = x.split(':').collect();
+                m.remove_file(q[0].parse().unwrap(), q[1].parse().unwrap());
+            }
+        }
+        let p = val(toks[6], "new=");
+        if p != "-" {
+            for x in p.split(',') {
+                let q: Vec<&str> = x.split(':').collect();
+                m.add_file(
+                    q[0].parse().unwrap(),
+                    q[1].parse().unwrap(),
+                    q[2].parse().unwrap(),
+                    ikey_in(q[3])..ikey_in(q[4]),
+                );
+            }
+        }
+        m
+    }
+
+    /// One request line in the syntax of the model driver's `batch.*` / `edit.*` commands, answered
+        /// by the real encoders and decoders.
+        pub fn run_line(line: &str) -> String {
+        let toks: Vec<&str> = line.split(' ').filter(|t| !t.is_empty()).collect();
+        match toks[0] {
+            "batch.encode" => {
+                let mut b = Batch::new();
+                b.set_starting_seq_number(toks[1].parse().unwrap());
+                for op in &toks[2..] {
+                    let p: Vec<&str> = op.split(':').collect();
+                    if p[0] == "p" {
+                        b.add_put(unhex(p[1]), unhex(p[2]));
+                    } else {
+                        b.add_delete(unhex(p[1]));
+                    }
+                }
+                hex(&Vec::<u8>::from(&b))
+            }
+            "batch.decode" => {
+                let bytes = unhex(toks[1]);
+                match std::panic::catch_unwind(|| Batch::try_from(bytes.as_slice())) {
+                    Err(_) => "PANIC".to_string(),
+                    Ok(Err(_)) => "error".to_string(),
+                    Ok(Ok(b)) => {
+                        let mut out = vec![b.get_starting_seq_number().unwrap().to_string()];
+                        for e in b.iter() {
+                            match e.get_value() {
+                                Some(v) => out.push(format!("p:{}:{}", hex(e.get_key()), hex(v))),
+                                None => out.push(format!("d:{}", hex(e.get_key()))),
+                            }
+                        }
+                        out.join(" ")
+                    }
+                }
+            }
+            "edit.encode" => hex(&Vec::<u8>::from(&edit_in(&toks[1..]))),
+            "edit.decode" => {
+                let bytes = unhex(toks[1]);
+                match std::panic::catch_unwind(|| VersionChangeManifest::try_from(bytes.as_slice())) {
+                    Err(_) => "PANIC".to_string(),
+                    Ok(Err(_)) => "error".to_string(),
+                    Ok(Ok(m)) => edit_out(&m),
+                }
+            }
+            _ => "bad-request".to_string(),
+        }
+    }
+
+}
